@@ -55,6 +55,98 @@ def known_witnesses():
     return out
 
 
+def parse_sx(t):
+    """s-expression of integers -> nested python lists"""
+    out, stack, i, n = None, [], 0, len(t)
+    cur = None
+    while i < n:
+        c = t[i]
+        if c == "(":
+            new = []
+            if cur is not None:
+                cur.append(new)
+                stack.append(cur)
+            cur = new
+            i += 1
+        elif c == ")":
+            if stack:
+                cur = stack.pop()
+            else:
+                out = cur
+            i += 1
+        elif c == " ":
+            i += 1
+        else:
+            j = i
+            while j < n and t[j] not in " ()":
+                j += 1
+            cur.append(int(t[i:j]))
+            i = j
+    return out
+
+
+def json_of_sx(x, floats):
+    tag = x[0]
+    if tag == 0:
+        return None
+    if tag == 1:
+        return bool(x[1])
+    if tag == 2:
+        return x[1]
+    if tag == 3:
+        return floats[x[1]]
+    if tag == 4:
+        return "".join(chr(c) for c in x[1:])
+    if tag == 5:
+        return [json_of_sx(y, floats) for y in x[1:]]
+    if tag == 6:
+        return {"".join(chr(c) for c in kv[0]): json_of_sx(kv[1], floats) for kv in x[1:]}
+    raise ValueError(tag)
+
+
+ORDERED = ("paths", "schemas", "properties", "responses", "content", "headers", "examples")
+
+
+def order_diff(a, b, path=""):
+    """maps with dynamic keys must list their keys in the same order"""
+    if isinstance(a, dict) and isinstance(b, dict):
+        for k in a:
+            if k in b:
+                if k in ORDERED and isinstance(a[k], dict) and isinstance(b[k], dict) and list(a[k]) != list(b[k]):
+                    return "%s/%s: %s vs %s" % (path, k, list(a[k])[:6], list(b[k])[:6])
+                d = order_diff(a[k], b[k], path + "/" + k)
+                if d:
+                    return d
+    elif isinstance(a, list) and isinstance(b, list):
+        for i, (x, y) in enumerate(zip(a, b)):
+            d = order_diff(x, y, "%s[%d]" % (path, i))
+            if d:
+                return d
+    return None
+
+
+def first_diff(a, b, path=""):
+    if type(a) != type(b) and not (isinstance(a, (int, float)) and isinstance(b, (int, float)) and not isinstance(a, bool) and not isinstance(b, bool)):
+        return "%s: %r vs %r" % (path, str(a)[:80], str(b)[:80])
+    if isinstance(a, dict):
+        for k in sorted(set(a) | set(b)):
+            if k not in a or k not in b:
+                return "%s/%s: only in %s" % (path, k, "model" if k in a else "code")
+            d = first_diff(a[k], b[k], path + "/" + k)
+            if d:
+                return d
+        return None
+    if isinstance(a, list):
+        if len(a) != len(b):
+            return "%s: lengths %d vs %d" % (path, len(a), len(b))
+        for i, (x, y) in enumerate(zip(a, b)):
+            d = first_diff(x, y, "%s[%d]" % (path, i))
+            if d:
+                return d
+        return None
+    return None if a == b else "%s: %r vs %r" % (path, a, b)
+
+
 def run(ctx, programs, label="eval_tie"):
     """programs: list of {"mods", "main"}. Reports a violation for every disagreement; returns the list of
     (program, impl result kind) for the programs on which both sides answered."""
@@ -85,6 +177,38 @@ def run(ctx, programs, label="eval_tie"):
     mouts = core.run_stateless(core.RUNNER, "eval", [d["prog"] for _, d in todo])
     louts = core.run_stateless(core.RUNNER, "evallex", [d["prog"] for _, d in todo])
     touts = core.run_stateless(core.RUNNER, "typing", ["(%s %s)" % (d["prog"], d["tenv"]) for _, d in todo])
+    # the document tie: Model/Builder.v on the model's Spec vs oal-openapi's Builder on the real Spec
+    for _, d in todo:
+        if isinstance(d.get("doc"), dict) and "text" in d["doc"]:
+            try:
+                d["doc"] = json.loads(d["doc"]["text"])
+            except Exception:
+                d["doc"] = None
+    dl = [(p, d) for p, d in todo if d["result"].startswith("(0 ") and isinstance(d.get("doc"), dict) and "builder_panic" not in d["doc"]]
+    douts = core.run_stateless(core.RUNNER, "doc", ["(%s %s %s)" % (d["prog"], d["strs_sx"], d["names_sx"]) for _, d in dl])
+    for (p, d), do in zip(dl, douts):
+        if do is None or do == "SKIPPED":
+            continue
+        if not do.startswith("(0 "):
+            ctx.broken.append("document tie: the model builds no document (%s) for %s" % (do[:30], json.dumps({"mods": p["mods"], "main": p["main"]})[:1200]))
+            ctx.count(label + "_doc_disagree")
+            continue
+        try:
+            mj = json_of_sx(parse_sx(do)[1], d.get("floats") or [])
+        except Exception as ex:
+            ctx.broken.append("document tie: unreadable model output %r" % (ex,))
+            continue
+        diff = first_diff(mj, d["doc"]) or order_diff(mj, d["doc"])
+        if diff:
+            ctx.broken.append("document tie: Model/Builder.v and oal-openapi disagree at %s on %s" %
+                              (diff[:300], json.dumps({"mods": p["mods"], "main": p["main"]})[:1200]))
+            ctx.count(label + "_doc_disagree")
+        else:
+            ctx.count(label + "_doc_agree")
+    for (p, d) in todo:
+        if isinstance(d.get("doc"), dict) and "builder_panic" in d["doc"]:
+            ctx.violation("the document builder panics on the Spec of an accepted program", {"mods": p["mods"], "main": p["main"]},
+                          "a document", d["doc"]["builder_panic"][:200], extra={"layer": "eval"})
     souts = core.run_stateless(core.RUNNER, "strat", [d["prog"] for _, d in todo])
     for (p, d), so in zip(todo, souts):
         # the hypothesis of the termination theorem: accepted programs are stratified (what cycles_check guarantees)
